@@ -401,6 +401,16 @@ pub fn post_op<'f>(s: &mut Sess, fs: &'f Fs, hs: &mut [Option<H<'f>>], op: &Op, 
             }
         }
     }
+    // ---- C20 / C11: nothing at or past the declared end may be addressed (reads included)
+    if s.cfg.on("C20") || s.cfg.on("C11") {
+        let b: Vec<(EvKind, u64, u64)> = s.dev.0.borrow_mut().beyond.drain(..).collect();
+        if let Some((k, off, len)) = b.first() {
+            let p: &'static str = if s.cfg.on("C20") { "C20" } else { "C11" };
+            let d = format!("during/after {}: device {} of {} bytes at offset {} reaches past the declared end of the volume ({})", op.show(), k.name(), len, off, dec.g.vol_end());
+            s.violate(p, "access-beyond-end", op, k.name(), d);
+            return;
+        }
+    }
     // ---- library view (C01 / C04)
     if s.cfg.lib_walk && !s.cfg.update_accessed && (s.cfg.on("C01") || s.cfg.on("C04")) {
         s.counters.lib_walks += 1;
@@ -843,7 +853,7 @@ pub fn after_unmount(s: &mut Sess, pre: &Image, log: &[Ev], how: u8, op: &Op) {
                 );
                 return;
             }
-            if hint != 0xFFFF_FFFF && !(2..=dec.g.max_cluster()).contains(&u64::from(hint)) {
+            if written && hint != 0xFFFF_FFFF && !(2..=dec.g.max_cluster()).contains(&u64::from(hint)) {
                 s.violate(
                     "C05",
                     "fsinfo-hint-range",
